@@ -99,3 +99,37 @@ func ClientFlight(secret []byte, tt pb.TransportType, params proto.Message) ([]b
 	}
 	return nil, fmt.Errorf("no client for %v", tt)
 }
+
+// Obfs4FlightOfLen runs the real obfs4 client until it produces a first flight of exactly want bytes (the client
+// draws its padding length uniformly, so a given length - in particular the maximum, 8192 - comes up about once
+// in 8000 handshakes). The flight is one Write of the client; it is captured with one Read. Returns nil if no such
+// flight came up within maxTries.
+func Obfs4FlightOfLen(secret []byte, want, maxTries int) []byte {
+	k, err := core.GenSharedKeys(4, secret, 0)
+	if err != nil {
+		return nil
+	}
+	buf := make([]byte, 16384)
+	for i := 0; i < maxTries; i++ {
+		ct := &obfs4.ClientTransport{}
+		_ = ct.SetParams(&pb.GenericTransportParams{RandomizeDstPort: proto.Bool(false)})
+		_ = ct.Prepare(context.Background(), nil)
+		kk, _ := core.GenSharedKeys(4, secret, 0)
+		if err := ct.PrepareKeys(StationPub, secret, kk.TransportReader); err != nil {
+			return nil
+		}
+		c1, c2 := net.Pipe()
+		done := make(chan struct{})
+		go func() { _, _ = ct.WrapConn(c1); close(done) }()
+		_ = c2.SetReadDeadline(time.Now().Add(5 * time.Second))
+		n, _ := c2.Read(buf)
+		c2.Close()
+		c1.Close()
+		<-done
+		if n == want {
+			return append([]byte{}, buf[:n]...)
+		}
+	}
+	_ = k
+	return nil
+}
